@@ -78,7 +78,7 @@ def St.enabled (s : St) (t : Nat) : Bool :=
 def enterCs (s : St) (t : Nat) : St × List String :=
   let inside := s.inCs + 1
   let s1 := { s with inCs := inside, pc := upd s.pc t .csRead,
-                     know := upd s.know t (s.know t ++ s.relSet) }
+                     know := upd s.know t (kmerge (s.know t) s.relSet) }
   if inside ≠ 1 then
     ({ s1 with viol := s1.viol + 1 }, [s!"T{t} note EXCLUSION-VIOLATED inside={inside}"])
   else (s1, [])
